@@ -46,7 +46,7 @@ func c13Pool(kind string) []lexeme {
 		p = append(p, lx(tokenizers.Word, "abc", "y")...)
 		p = append(p, lx(tokenizers.Integer, "12")...)
 		p = append(p, lx(tokenizers.Whitespace, " ")...)
-		p = append(p, lx(tokenizers.Symbol, "<-->", "<-", "<", "-", ">", "<=", "=>>", "=>", "=", "+")...)
+		p = append(p, lx(tokenizers.Symbol, "<-->", "<-", "<", "-", ">", "<=", "=>>", "=>", "=", "+", "\u223c=", "\u223c")...)
 		return p
 	}
 	if kind == "generic+symrange" {
@@ -86,7 +86,7 @@ func c13Pool(kind string) []lexeme {
 var c13Multi = map[string][]string{
 	"generic":    {"<>", "<=", ">="},
 	"expression": {"<=", ">=", "<>", "!=", ">>", "<<"},
-	"generic+latesymbols": {"<>", "<=", ">=", "<-->", "<-", "=>>", "=>"},
+	"generic+latesymbols": {"<>", "<=", ">=", "<-->", "<-", "=>>", "=>", "\u223c="},
 }
 
 func isWordCharConservative(r rune) bool {
@@ -186,6 +186,9 @@ func c13New(kind string) tokenizers.ITokenizer {
 		}
 		g.SymbolState().Add("<-", tokenizers.Symbol)
 		g.SymbolState().Add("=>", tokenizers.Symbol)
+		// a symbol whose first character equals '<' modulo 256, declared a symbol character first
+		g.SetCharacterState(0x223c, 0x223c, g.SymbolState())
+		g.SymbolState().Add("\u223c=", tokenizers.Symbol)
 	case "expression+cyrillic":
 		e := t.(*calctok.ExpressionTokenizer)
 		e.SetCharacterState(0x0400, 0x04ff, e.WordState())
